@@ -75,6 +75,7 @@ func genC09Reader(repo string) (string, error) {
 	// --- constants
 	strConst := map[string]string{}
 	runeConst := map[string]int{}
+	blockSize := 0
 	var modeNames []string
 	for _, d := range file.Decls {
 		gd, ok := d.(*ast.GenDecl)
@@ -92,6 +93,8 @@ func genC09Reader(repo string) (string, error) {
 					if strings.HasSuffix(n.Name, "Mode") {
 						modeNames = append(modeNames, n.Name)
 					}
+				} else if bl, ok := vs.Values[i].(*ast.BasicLit); ok && bl.Kind == token.INT && n.Name == "readBlockSize" {
+					blockSize, _ = strconv.Atoi(bl.Value)
 				} else if bl, ok := vs.Values[i].(*ast.BasicLit); ok && bl.Kind == token.CHAR {
 					if r, _, _, err := strconv.UnquoteChar(bl.Value[1:len(bl.Value)-1], '\''); err == nil {
 						runeConst[n.Name] = int(r)
@@ -453,6 +456,7 @@ func genC09Reader(repo string) (string, error) {
 	sort.Ints(nts)
 	fmt.Fprintf(&b, "/-- modes r.nextMode is ever set to -/\ndef nextModes : List Nat := %s\n\n", c09Ints(nts))
 	fmt.Fprintf(&b, "def initial : Nat := %d\n\n", initial)
+	fmt.Fprintf(&b, "/-- readBlockSize: the size of the blocks the stream entry points read (0: constant not found) -/\ndef readBlockSize : Nat := %d\n\n", blockSize)
 	fmt.Fprintf(&b, "/-- the default clause of the switch ends in r.raise on every path -/\ndef defaultRaises : Bool := %v\n\n", defaultRaises)
 	b.WriteString("end SlipVerif.Gen.C09Reader\n")
 	return b.String(), nil
